@@ -15,7 +15,7 @@ CONSTANTS
   Atomic = TRUE
   ReportFine = FALSE
   AutoApprove = TRUE
-  Opts = {"wait", "unwait"}
+  Opts = {"wait", "unwait", "after"}
   ReportOnce = TRUE
   MaxLevel = 10
   EmitJson = FALSE
